@@ -40,6 +40,7 @@ RULES = {
     "R-TILE": flow.r_tile,
     "R-STACK-END": flow.r_stack_end,
     "R-CLOSE": flow.r_eof_flag,
+    "R-CLOSE-EMITS": flow.r_close_emits,
     "R-OVERRUN-ALL": flow.r_overrun_all,
     "L-BUFFER-PROGRESS": flow.r_buffer_progress,
     "R-RECOVER-STRETCH": flow.r_recover_stretch,
@@ -71,7 +72,7 @@ PROPERTIES = {
                        "and the payload decoders' length classes.  Not decided: that the decoded number/string equals the bytes' value.",
     },
     "C06": {
-        "rules": ["R-STACK-END", "R-CLOSE", "R-OVERRUN-ALL", "R-SHARED-MATCHER", "R-TOL-STRICT", "R-CLOSE-UNKNOWN-ONLY", "R-MATCHER-TABLE/rejects"],
+        "rules": ["R-STACK-END", "R-CLOSE", "R-OVERRUN-ALL", "R-SHARED-MATCHER", "R-TOL-STRICT", "R-CLOSE-UNKNOWN-ONLY", "R-MATCHER-TABLE/rejects", "R-CLOSE-EMITS"],
         "level": "other",
         "explanation": "Typestate/value-flow rules over read_next and header validation: only End-form tags are stored on the open-master stack; the "
                        "stack shrinks only at the three closing sites (exhausted known-size masters drained innermost-first before the next header, "
@@ -147,10 +148,13 @@ PROPERTIES = {
                        "equality of two runs as such is not decided.",
     },
     "C12": {
-        "rules": ["R-STALE", "R-EOF-GENUINE"],
+        "rules": ["R-STALE", "R-EOF-GENUINE", "R-CLOSE-EMITS"],
         "level": "proof",
         "explanation": "As C04 for the truncation case: nothing beyond the bytes actually delivered is parsed or reported (including partial_data), "
-                       "an end-of-file error is raised only when the source is exhausted, and normal termination (closing Ends) only when no buffered byte is left unparsed.  'Exactly the complete prefix' per cut point is not decided.",
+                       "an end-of-file error is raised only when the source is exhausted, and normal termination (closing Ends) only when no buffered byte is left unparsed.  'Exactly the complete prefix' per cut point is not decided.  "
+                       "In addition a pairing rule on read_next (R-CLOSE-EMITS, value flow on MIR): every master removed from the open-master stack reaches the "
+                       "emission queue, and a local container that stages removed masters is handed to the queue on every path to the return, so the Ends of "
+                       "masters completed within the prefix are not lost when the element after them is incomplete.",
     },
     "C17": {
         "rules": ["R-LIMIT", "R-PANIC-ITER"],
